@@ -187,7 +187,8 @@ def gen_pool(rng, cfgname, size, uid0=0, gas_only=False):
             elif kind < 0.60 or not ice or gas_only:
                 nr = rng.choice([1, 2, 2, 2, 3])
                 R = [rng.choice(gas) for _ in range(nr)]
-                P = [rng.choice(gas) for _ in range(rng.choice([1, 1, 2, 2, 3]))]
+                # (up to five products: the widest reaction the text formats can carry)
+                P = [rng.choice(gas) for _ in range(rng.choice([1, 1, 1, 2, 2, 2, 3, 3, 4, 5]))]
                 pseudo = None
                 rtype = rng.choice([RT_TWOBODY, RT_TWOBODY, RT_TWOBODY, RT_UNKNOWN])
                 if nr == 1 and rng.random() < 0.7:
